@@ -74,11 +74,10 @@ def gen_enum(rng, idx, conv):
                 own = '"{_0}"'
             elif shape == "one_spec":
                 own = '"{_0:>4}"'
-        vattrs = ""
-        if own:
-            vattrs += f"#[{an}({own})] "
-        if vcase:
-            vattrs += f'#[{an}(rename_all = "{vcase[1]}")] '
+        va = ([f"#[{an}({own})] "] if own else []) + ([f'#[{an}(rename_all = "{vcase[1]}")] '] if vcase else [])
+        if len(va) == 2 and rng.chance(1, 2):
+            va.reverse()                 # independent attributes: either order
+        vattrs = "".join(va)
         variants.append(vattrs + decl)
         # documented text of the variant by itself
         unraw = vn[2:] if vn.startswith("r#") else vn
@@ -98,11 +97,10 @@ def gen_enum(rng, idx, conv):
             ref = f"format!({sh_src})"
         arms.append(f"            {pat} => {ref},")
         ctor.append(val)
-    eattrs = ""
-    if sh_src:
-        eattrs += f"#[{an}({sh_src})] "
-    if case:
-        eattrs += f'#[{an}(rename_all = "{case[1]}")] '
+    ea = ([f"#[{an}({sh_src})] "] if sh_src else []) + ([f'#[{an}(rename_all = "{case[1]}")] '] if case else [])
+    if len(ea) == 2 and rng.chance(1, 2):
+        ea.reverse()
+    eattrs = "".join(ea)
     src = (f"#[derive(derive_more::{trait})] {eattrs}pub enum E {{ " + ", ".join(variants) + " }\n"
            f"pub fn reference(v: &E) -> String {{\n        match v {{\n" + "\n".join(arms) + "\n        }\n    }\n"
            f"pub fn run() {{ for (i, v) in [{', '.join(ctor)}].iter().enumerate() {{ "
